@@ -114,5 +114,9 @@ def run(chk: Check) -> None:
     recs = rule_records(chk)
     run_cases(chk, recs)
     run_r5(chk, prog)
+    # contracts of other parts of the library this check takes for granted (summaries, token model, reference grammar):
+    # the clauses that check the source against them, replayed under this property (props/contracts.py)
+    from .contracts import run_contracts
+    run_contracts(chk, prog, ['clone', 'traversal'])
     chk.exhaustive = True
     chk.max_undecided = 0
